@@ -26,6 +26,7 @@
 #include "vector.h"
 #include "matrix.h"
 #include "scientificinfo.h"
+#include "verif_hooks.h"
 
 void NewPCAModel(PCAMODEL** m)
 {
@@ -299,6 +300,7 @@ void PCA(matrix *mx, int scaling, size_t npc, PCAMODEL* model, ssignal *s)
         puts("....................");
         #endif
 
+        VERIF_ITER("PCA", pc, mod_t, mod_p, calcConvergence(t, t_old));
         if(calcConvergence(t, t_old) < PCACONVERGENCE){
           /* copy the loadings and score to the output data matrix */
           for(i = 0; i < t->size; i++){
